@@ -58,6 +58,11 @@ func lex(t vt.TB, l *verifhooks.Lexer, line string, ns string) result {
 	if !bytes.Equal(buf[len(line):len(line)+len(sentinel)], sentinel) {
 		vt.Fail(t, "C02:wrote-beyond-line", "lexer modified bytes beyond the line %q", line)
 	}
+	// the receive buffer is re-used for the next datagram as soon as the line is parsed: a result that still points into
+	// it changes with it (the datagram-level statement of this is C05's)
+	for i := range in {
+		in[i] = '#'
+	}
 	var r result
 	r.err = err
 	if err != nil && (m != nil || e != nil) {
